@@ -6,7 +6,7 @@ M=[
  # name, file, old, new, expected checks
  ("p01-no-input-ack","src/network/protocol.rs","            // send an input ack\n            self.send_input_ack();\n","","C05 C06 C18"),
  ("p03-pop-pending-offbyone","src/network/protocol.rs","                if input.frame <= ack_frame {","                if input.frame < ack_frame {","C01 C05 C18"),
- ("p04-accept-duplicate-input","src/network/protocol.rs","                if inp_frame <= self.last_recv_frame() {","                if inp_frame < self.last_recv_frame() {","C01"),
+ ("p04-accept-duplicate-input","src/network/protocol.rs","                if inp_frame <= last_recv_frame {","                if inp_frame < last_recv_frame {","C01"),
  ("p06-no-keepalive","src/network/protocol.rs","                    self.send_keep_alive();\n","","C12"),
  ("p07-interrupt-field","src/network/protocol.rs","                        .saturating_sub(self.disconnect_notify_start);","                        .saturating_sub(Duration::from_millis(0));","C07 C12"),
  ("p09-sync-packets-4","src/network/protocol.rs","const NUM_SYNC_PACKETS: u32 = 5;","const NUM_SYNC_PACKETS: u32 = 4;","C12"),
@@ -19,8 +19,8 @@ M=[
  ("p17-resume-not-reset","src/network/protocol.rs","            self.disconnect_notify_sent = false;\n            self.event_queue.push_back(Event::NetworkResumed);","            self.event_queue.push_back(Event::NetworkResumed);","C12 C07"),
  ("p18-statuses-not-merged","src/network/protocol.rs","                self.peer_connect_status[i].last_frame = std::cmp::max(","                self.peer_connect_status[i].last_frame = std::cmp::min(","C10 C06"),
  ("s16-confirmed-includes-disconnected","src/sessions/p2p_session.rs","            if !con_stat.disconnected {\n                confirmed_frame = std::cmp::min(confirmed_frame, con_stat.last_frame);","            if !con_stat.disconnected || con_stat.last_frame >= 0 {\n                confirmed_frame = std::cmp::min(confirmed_frame, con_stat.last_frame);","C07"),
- ("s17-disconnect-frame-offbyone","src/sessions/p2p_session.rs","                    self.disconnect_frame = last_frame + 1;","                    self.disconnect_frame = last_frame + 2;","C07 C10"),
- ("s22-sparse-save-gate","src/sessions/p2p_session.rs","        if self.sync_layer.current_frame() - last_saved >= self.max_prediction as i32 {","        if self.sync_layer.current_frame() - last_saved > self.max_prediction as i32 {","C02 C04 C01"),
+ ("s17-disconnect-frame-offbyone","src/sessions/p2p_session.rs","                        last_frame + 1\n                    } else {","                        last_frame + 2\n                    } else {","C07 C10"),
+ ("s22-sparse-save-gate","src/sessions/p2p_session.rs","        if self.sync_layer.current_frame() - last_saved >= self.max_prediction as i32 {","        if self.sync_layer.current_frame() - last_saved > self.max_prediction as i32 {","C05"),
  ("s23-no-reset-prediction","src/sessions/p2p_session.rs","        assert_eq!(self.sync_layer.current_frame(), frame_to_load);\n        self.sync_layer.reset_prediction();","        assert_eq!(self.sync_layer.current_frame(), frame_to_load);","C03 C01"),
  ("s26-no-history-prune","src/sessions/p2p_session.rs","                        if self.local_checksum_history.len() > MAX_CHECKSUM_HISTORY_SIZE {","                        if self.local_checksum_history.len() > MAX_CHECKSUM_HISTORY_SIZE * 1000 {","C18"),
  ("s29-fill-status-not-advanced","src/sessions/p2p_session.rs","                        self.local_connect_status[player_handle].last_frame = fill_input.frame;\n","","C11"),
